@@ -190,7 +190,10 @@ def gen_string_session(rng, s):
         t = gens.days_from_civil(y, rng.randint(1, 12), rng.randint(1, 28)) * 86400 + rng.randint(0, 86399)
         yield {"op": "lookup", "a": {"u": W(t), "via": "owned"}}
         g = glibc_obs(t)
-        if g is not None:
+        # glibc evaluates a rule for the calendar year of the instant only (see below): within 8 days of a New Year it is not a
+        # reference for a description whose start or end spills over New Year; the crate is still judged there by the specification
+        near_ny = min(abs(t - gens.days_from_civil(y + k, 1, 1) * 86400) for k in (0, 1)) <= 8 * 86400
+        if g is not None and not near_ny:
             yield {"op": "ref", "a": {"impl": "glibc", "scale": "utc", "t": W(t), "obs": g}}
     # every whole hour within 26 h of one New Year (a start or end written for 1 January or 31 December lands there, in the
     # neighbouring UTC year): the crate against the specification only (glibc is not a reference this close to New Year), and the
